@@ -211,16 +211,17 @@ def simulate_reads(gene, copies, depth=20, read_len=60, extra_pseudo=0, name_pre
     return reads
 
 
-def neutral_reads(chrom_region, layers, read_len=60, name_prefix="n"):
-    """uniform reads over a copy-number-neutral region (sequence irrelevant)"""
+def neutral_reads(chrom_region, layers, read_len=60, name_prefix="n", overhang=False):
+    """uniform reads over a copy-number-neutral region (sequence irrelevant); with `overhang` whole reads that start before
+    the region and end after it (as real reads do) instead of reads clipped to the region"""
     _, a, b = chrom_region
     reads = []
     n = 0
     for layer in range(layers):
         phase = (layer * 7919) % read_len
-        s, first = a, True
+        s, first = (a - (read_len - phase) % read_len if overhang else a), True
         while s < b:
-            e = min(b, s + (phase if first and phase else read_len))
+            e = (s + read_len) if overhang else min(b, s + (phase if first and phase else read_len))
             first = False
             reads.append({"name": f"{name_prefix}{n}", "pos": s, "seq": "A" * (e - s), "cigar": [(0, e - s)], "mapq": 60})
             n += 1
